@@ -10,7 +10,8 @@ package c05
 // goroutine is blocked in sync.(*Mutex).Lock.  Then the holder goes on and its reader fails
 // after k tokens (mode `fail`, 0 < k < len) or delivers all of them (mode `finish`, k = len).
 // Mode `twfail`: the holder is a token writer that writes k tokens of the element and is then
-// closed (an abandoned handle: its Close succeeds, the stream is left inside the element).  A call that asked "is the stream inside an unfinished
+// closed (an abandoned handle: its Close succeeds, the stream is left inside the element).
+// Mode `encfail`: the holder is Encode of a value whose token reader fails after k tokens.  A call that asked "is the stream inside an unfinished
 // element?" BEFORE it queued acts on a stale answer: after `fail` it writes its element inside
 // the unfinished one and reports success, during `finish` it is refused although nothing is
 // broken.  The model (SendGuard LTS, guard under the lock) says: fail -> refused, nothing
@@ -44,6 +45,11 @@ type parkReader struct {
 }
 
 var errParked = errors.New("c05: the payload reader failed")
+
+// readerMarshaler is a value that marshals to whatever its token reader delivers.
+type readerMarshaler struct{ r xml.TokenReader }
+
+func (m readerMarshaler) TokenReader() xml.TokenReader { return m.r }
 
 func (g *parkReader) Token() (xml.Token, error) {
 	if g.i == g.park && !g.parked {
@@ -123,6 +129,11 @@ func (c *ctxT) behind(cfg cfgT, mode string, park, k int, toks []xml.Token, cl c
 	go func() {
 		defer close(done1)
 		p1 = common.Recover(func() {
+			if mode == "encfail" {
+				// Encode of a value whose token reader fails: the copy loop of internal/marshal
+				err1 = rs.S.Encode(context.Background(), readerMarshaler{pr})
+				return
+			}
 			if mode != "twfail" {
 				err1 = rs.S.Send(context.Background(), pr)
 				return
@@ -261,6 +272,7 @@ func (c *ctxT) behindCorpus(cfg cfgT) {
 				}
 				c.behind(cfg, "fail", park, k, msg, cl)
 				c.behind(cfg, "twfail", park, k, msg, cl)
+				c.behind(cfg, "encfail", park, k, msg, cl)
 			}
 			c.behind(cfg, "finish", k, len(msg), msg, cl)
 		}
